@@ -523,7 +523,7 @@ func boundedByLoopCounter(f *ssa.Function, in ssa.Instruction) bool {
 			continue
 		}
 		// `in` must be unreachable through the exceeded edge without re-passing the test, and reachable only via the other edge
-		blocked := map[edge]bool{{b.Index, 1 - exceededSlot}: true}
+		blocked := map[edge]bool{{b.Index, 1 - exceededSlot, 0}: true}
 		if hit, _ := reach(f, nil, isInstr(in), nil, blocked); !hit {
 			return true
 		}
